@@ -29,7 +29,100 @@ func (w *World) guardProtectsSuccess(fn *ssa.Function, match func(string) bool) 
 		}
 		return g, ok
 	}
-	return nil, false
+	// The guard may be spelled differently (operands swapped, Cmp/Lt/Equal, inverted
+	// with an early return) or sit in a helper: look at every branch condition of fn
+	// and of its static module callees as a normalised atom, render the atom (and its
+	// complement) in the usual spellings, and let the rule's own predicate pick the
+	// one it means. The verdict is then guard necessity: under that fact fn has no
+	// successful path.
+	var found *ssa.If
+	var fact atom
+	var scan func(f *ssa.Function, depth int) bool
+	scan = func(f *ssa.Function, depth int) bool {
+		for _, b := range f.Blocks {
+			ifi, ok := lastInstr(b).(*ssa.If)
+			if !ok {
+				continue
+			}
+			for _, plain := range []bool{true, false} {
+				w.noHelperAtoms = plain
+				a, ok := w.atomOf(ifi.Cond)
+				w.noHelperAtoms = false
+				if !ok {
+					continue
+				}
+				for _, cand := range []atom{a, {L: a.L, R: a.R, Rel: relAll &^ a.Rel}} {
+					for _, sp := range spellings(cand) {
+						if match(sp) {
+							found, fact = ifi, cand
+							return true
+						}
+					}
+				}
+			}
+		}
+		if depth >= 2 {
+			return false
+		}
+		for _, c := range CallsIn(f) {
+			cal := c.Common().StaticCallee()
+			if cal == nil || !w.InModule(cal) || cal.Blocks == nil || cal == f || len(cal.Params) != len(c.Common().Args) {
+				continue
+			}
+			env := map[*ssa.Parameter]string{}
+			for j, p := range cal.Params {
+				env[p] = w.Canon(c.Common().Args[j])
+			}
+			w.inlineEnv = append(w.inlineEnv, env)
+			hit := scan(cal, depth+1)
+			w.inlineEnv = w.inlineEnv[:len(w.inlineEnv)-1]
+			if hit {
+				return true
+			}
+		}
+		return false
+	}
+	if !scan(fn, 0) {
+		return nil, false
+	}
+	ok, _ := w.failsUnder(fn, nil, fact)
+	return &Guard{If: found, Cond: fact.String(), CondI: fact.String()}, ok
+}
+
+// spellings renders an atom in the forms conditions are usually written in.
+func spellings(a atom) []string {
+	var out []string
+	ops := map[relSet]string{relLT: "<", relLT | relEQ: "<=", relGT: ">", relGT | relEQ: ">=", relEQ: "==", relLT | relGT: "!="}
+	if a.R == "true" {
+		switch a.Rel {
+		case relEQ:
+			out = append(out, a.L, "("+a.L+" == true)", "("+a.L+" != false)")
+		case relLT | relGT:
+			out = append(out, "!"+a.L, "("+a.L+" == false)", "("+a.L+" != true)")
+		}
+		return out
+	}
+	for _, v := range []struct {
+		l, r string
+		rel  relSet
+	}{{a.L, a.R, a.Rel}, {a.R, a.L, a.Rel.mirror()}} {
+		op, ok := ops[v.rel]
+		if !ok {
+			continue
+		}
+		out = append(out, "("+v.l+" "+op+" "+v.r+")", "("+v.l+".Cmp("+v.r+") "+op+" 0)", "("+v.l+".Compare("+v.r+") "+op+" 0)", "(bytes.Compare("+v.l+", "+v.r+") "+op+" 0)")
+		switch v.rel {
+		case relLT:
+			out = append(out, v.l+".Lt("+v.r+")")
+		case relGT:
+			out = append(out, v.l+".Gt("+v.r+")")
+		case relEQ:
+			out = append(out, v.l+".Eq("+v.r+")", "bytes.Equal("+v.l+", "+v.r+")")
+		case relLT | relGT:
+			out = append(out, "!"+v.l+".Eq("+v.r+")", "!bytes.Equal("+v.l+", "+v.r+")")
+		}
+	}
+	return out
 }
 
 func checkC16(w *World, r *Report) {
